@@ -67,3 +67,10 @@ package dns
 //@   loop 1 invariant len(keys) == rangeindex + 1 && rangeindex < len(rrs)
 //@   loop 2 invariant 0 <= j && j <= rangeindex + 1 && rangeindex < len(rrs) && len(keys) == len(rrs)
 //@   assert at "mrh.Ttl = rh.Ttl" lower: rh.Ttl < mrh.Ttl
+
+// SVCB parameter lists are equal only if, pairwise after sorting, the keys are equal and the packed values
+// are equal: the values of a pair are looked at only after its keys have been compared
+//@ func areSVCBPairArraysEqual [C20]
+//@   opt no-safety
+//@   callsite "pack" keyfirst: called("Key")
+//@   pure
